@@ -81,6 +81,12 @@ CHECKS.update({
    note=DISP_NOTE),
 })
 
+CHECKS.update({
+ "C15": dict(level="model_checking", ref="3 C15", technique="exhaustive enumeration of every node, edge and start-to-end walk of the graphs returned by the real make_est_times over the dispatch topology family x O/D x train length x departure",
+   text="For every generated (topology, origin/destination, train, departure) the real estimated-time network is built and then explored completely: reciprocity of forward/backward links at every node, every walk over primary/alternate links reaches the end node and spells a contiguous origin-to-destination route with each segment cleared after it is entered and in order, all times/durations/distances finite and non-negative (not before departure), each node = primary predecessor + duration, no node later than any predecessor allows.",
+   note="graphs are small (tens of nodes) so node/walk enumeration is complete; get_running_time_hours itself is only compiled with the pyo3 feature, its defining difference is checked instead; the multi-origin scheduling defect is a known finding (3 keys, one input class)"),
+})
+
 def main():
     checks = []
     for pid in sorted(CHECKS):
